@@ -83,6 +83,21 @@ FIXED = {
     "fix: extraction into a writer factory creates no directory on disk": (["C09"], "extract(path=P, targets=T, factory=F) created P on disk. Reported by a bug-hunting sub-agent working on the unmodified tree with only the property text; reproduced by me; the check was widened until it reports the defect on the pre-fix tree."),
     "fix: member names are judged with the backslash as a separator, as every reader takes it": (["C16"], "writestr/writef accepted '\\\\etc\\\\passwd' and '..\\\\..\\\\x' (read back as '/etc/passwd', '../../x'); write()/writeall() stored files named '\\\\abs.txt', 'c:\\\\win.txt' so that they read back as '/abs.txt', '/win.txt'. The check's alphabet had no backslash. Reported by a bug-hunting sub-agent working on the unmodified tree with only the property text; reproduced by me; the check was widened until it reports the defect on the pre-fix tree."),
     "fix: names that the name table cannot hold are refused when the member is added": (["C16", "C15"], "names with NUL or >= 65536 UTF-16 units were accepted and read back as two members, the second absolute; a lone surrogate (undecodable file name) was accepted and made close() fail before any header was written, losing the session. Reported by a bug-hunting sub-agent working on the unmodified tree with only the property text; reproduced by me; the check was widened until it reports the defect on the pre-fix tree."),
+    'fix: a symbolic link can be written after members that have no source path': (['C02', 'C08'], 'write(<symlink>) after writestr()/writef() or in append mode died with AttributeError in _find_link_target(): writeall() of a tree with links always failed in append mode. Noticed by a bug-hunting sub-agent as an aside; the check wrote trees into fresh archives only. Reported by a bug-hunting sub-agent working on the unmodified tree with only the property text; reproduced by me; the check was widened until it reports the defect on the pre-fix tree.'),
+    "fix: an archive created with mode 'x' gets its header": (['C01'], "close() flushed only modes 'w' and 'a': every archive created with mode 'x' stayed a 32-byte placeholder. Noticed by a bug-hunting sub-agent as an aside; the check had never used mode 'x'. Reported by a bug-hunting sub-agent working on the unmodified tree with only the property text; reproduced by me; the check was widened until it reports the defect on the pre-fix tree."),
+    'fix: the target of a link member is checked against its CRC before the link is made': (['C15', 'C04'], 'link members were created without the CRC check: after a source had failed k bytes into a write(), extractall() succeeded and made links with wrong targets. Reported by a bug-hunting sub-agent working on the unmodified tree with only the property text; reproduced by me; the check was widened until it reports the defect on the pre-fix tree.'),
+    'fix: a source whose timestamps do not fit a FILETIME is refused by write(), not by close()': (['C15'], 'an mtime before 1601 made close() fail with struct.error: no header written, session lost, append destroyed the existing archive. Reported by a bug-hunting sub-agent working on the unmodified tree with only the property text; reproduced by me; the check was widened until it reports the defect on the pre-fix tree.'),
+    'fix: writef() of a file object positioned past its end is refused': (['C15'], 'negative size: member registered but not archived; the next write archived the stale entry and read the old file object again; archive unreadable. Reported by a bug-hunting sub-agent working on the unmodified tree with only the property text; reproduced by me; the check was widened until it reports the defect on the pre-fix tree.'),
+    'fix: write() of a FIFO, socket or device node is refused before the member is registered': (['C15'], 'write(<fifo>) raised KeyError after half-registering the member; close() failed, all members lost, append mode destroyed the existing archive. Reported by a bug-hunting sub-agent working on the unmodified tree with only the property text; reproduced by me; the check was widened until it reports the defect on the pre-fix tree.'),
+    'fix: an append session spoils the start header before it overwrites the old header': (['C14'], "append sessions overwrite the old header while the old signature header stays valid and py7zr-written packed headers carry no CRC: with the Copy chain and data-less members the new header lands exactly on the old one and crash states opened with wrong member lists (10 of 24 sessions). The check's append sessions always added packed bytes. Reported by a bug-hunting sub-agent working on the unmodified tree with only the property text; reproduced by me; the check was widened until it reports the defect on the pre-fix tree."),
+    'fix: write calls on an archive opened for reading are refused': (['C12'], "write()/writef()/writestr()/writeall() on a mode 'r' session over a writable stream returned normally and overwrote the archive's bytes. Reported by a bug-hunting sub-agent working on the unmodified tree with only the property text; reproduced by me; the check was widened until it reports the defect on the pre-fix tree."),
+    'fix: members whose names are different spellings of one output path are kept apart like members with equal names': (['C12', 'C13', 'C03'], "'a.txt' and 'x/../a.txt' in two folders were written to one file by two workers at once: result differed from run to run, sometimes neither member. Reported by a bug-hunting sub-agent working on the unmodified tree with only the property text; reproduced by me; the check was widened until it reports the defect on the pre-fix tree."),
+    'fix: the error a multi-folder extraction or testzip() reports no longer depends on which worker fails first': (['C12', 'C13'], 'several damaged folders: testzip() by file name named a different member from run to run (shared exception queue, first entry wins). Reported by a bug-hunting sub-agent working on the unmodified tree with only the property text; reproduced by me; the check was widened until it reports the defect on the pre-fix tree.'),
+    'fix: extraction refuses a member whose output path is the archive being read': (['C12'], 'an archive holding a member with its own file name, extracted into its own directory, was overwritten, replaced by a link or truncated by the read session. Reported by a bug-hunting sub-agent working on the unmodified tree with only the property text; reproduced by me; the check was widened until it reports the defect on the pre-fix tree.'),
+    'fix: directory members are checked against the links on disk like files and links': (['C03'], 'extract(T1); reset(); extract(T2) on one object: a directory member under links made by the first call was created outside the destination. The check had no multi-call histories. Reported by a bug-hunting sub-agent working on the unmodified tree with only the property text; reproduced by me; the check was widened until it reports the defect on the pre-fix tree.'),
+    'fix: folders of an archive that holds link members are extracted one after another': (['C03', 'C13'], "parallel path: the containment check of a member is check-then-act; with 'b -> a/..', 'a -> .' and file 'b/b' in three folders another worker's symlink_to() re-pointed the path between check and open(): file created in the parent of the destination (0.3-1 % of free runs). The check now drives the workers with the controlled scheduler (parked at mkdir/open/symlink, released in random order) and hits it deterministically. Reported by a bug-hunting sub-agent working on the unmodified tree with only the property text; reproduced by me; the check was widened until it reports the defect on the pre-fix tree."),
+    "fix: the packed header carries its CRC": (["C04", "C14"], "py7zr-written archives stored no CRC for the packed header: a flipped bit in a name that LZMA2 had stored uncompressed (CJK names), or in an AES-only encrypted header, delivered the original bytes under another name with test() True. The check's corpus had compressible ASCII names only; an earlier alarm of this kind on a *reference-written* archive without header CRC had been (rightly) ruled outside the quantifier, which hid that py7zr's own writer omits the CRC. Reported by a bug-hunting sub-agent working on the unmodified tree with only the property text; reproduced by me; the check was widened until it reports the defect on the pre-fix tree."),
+    "fix: mp=True extraction fails when a worker process dies": (["C04", "C13"], "a worker process killed by a signal inside a codec library reported nothing; extractall() returned normally with members of that folder empty. Reported by a bug-hunting sub-agent working on the unmodified tree with only the property text; reproduced by me; the check was widened until it reports the defect on the pre-fix tree."),
     "fix: every extracted entry is checked against the links already on disk, not only link targets": (["C03"], "dangling link 'b -> a/..' followed by 'a -> .' made a later member 'a/b/c' land outside the destination (found by the thorough tier's random 4-entry archives)"),
     "fix: test() stops reading at the end of the file": (["C05"], "test() iterated (declared pack size / block size) times over an exhausted file"),
     "fix: reject a file count the header cannot possibly describe": (["C05"], "41-byte archive declaring 2^31 files allocated one record per declared file"),
